@@ -35,7 +35,7 @@ QUICK_CASES = {"C05": 35, "C04": 60, "C06": 90}
 def plan(prop: str, tier: str) -> Plan:
     if tier == "quick":
         return Plan(shards=4, cases_per_shard=QUICK_CASES.get(prop, 80), timeout_s=600)
-    return Plan(shards=16, cases_per_shard={"C05": 500}.get(prop, 1200), timeout_s=3000)
+    return Plan(shards=16, cases_per_shard={"C05": 350}.get(prop, 1200), timeout_s=3000)
 
 
 RULES = {
@@ -205,7 +205,7 @@ SENTINELS = {
     "C05": ["event_sequences_checked", "closed_filled", "closed_cancelled", "closed_fill_or_kill", "listing_checks"],
     "C06": ["shadow_hold_checks", "reservation_checks", "closed_cancelled", "closed_fill_or_kill", "closed_filled"],
     "C07": ["rejected_create_order", "rejected_cancel_order", "rejected_repay_loan", "rejected_create_loan",
-            "rej_origin_validation", "rej_origin_hold", "rej_origin_margin_rule", "rej_origin_closed"],
+            "rej_origin_validation", "rej_origin_hold", "rej_origin_margin_rule", "rej_origin_closed", "loans_rolled_back"],
     "C08": ["liquidity_bars_checked", "fill_checks", "balance_checks"],
     "C09": ["fee_checks", "partial_fills"],
     "C10": ["c10_grants_checked", "c10_grants_with_requirement", "rej_origin_margin_rule"],
